@@ -717,6 +717,7 @@ def units_rule(chk, db):
 
 META_EXTRA = 'CAST / CONV (conversion arithmetic skeleton count*num/den in the common type; kernel selection); ROUND (floor/ceil/round evaluated as decision procedures, sign-robust parity); COMMON (tick counts read only from operands converted to the common duration); UNITS (type-tagged tick counts: no operator combines counts of two different duration types); COMPOUND (compound assignment and increment operators apply their own arithmetic operator); REL (duration / time_point relational operators evaluated over the ordering of the compared subjects); PARAM.'
 META = (META[0] + " " + META_EXTRA, META[1])
+META = (META[0] + ' ABS (chrono::abs per ordering of d against zero()).', META[1])
 
 
 def run(chk, tier):
